@@ -63,11 +63,18 @@
 (*     up again after execution (README: "an account and authenticator are *)
 (*     selected again"): a transaction that removes the authenticator it   *)
 (*     selected fails as a whole.                                          *)
-(*  P11 fee and replay.  The fee is charged exactly once, to the signer of *)
-(*     the first message, and exactly when that message is authenticated   *)
-(*     (it stays charged whatever happens later); the sequence number of   *)
-(*     every signer grows by exactly one iff the ante phase succeeds; a    *)
-(*     signature carrying another sequence number is never accepted.       *)
+(*  P11 fee and replay.  The fee is charged at most once per transaction,  *)
+(*     to the signer of the first message, and never unless that message   *)
+(*     was authenticated; once the ante phase succeeded it stays charged   *)
+(*     whatever happens later.  The sequence number of every signer grows  *)
+(*     by exactly one iff the ante phase succeeds; a signature carrying    *)
+(*     another sequence number is never accepted; and the same signed      *)
+(*     bytes are never charged twice: a transaction that charges a fee     *)
+(*     consumes the fee payer's sequence number (replay protection,        *)
+(*     authenticator/replay_protection.go).  When the payer's message is   *)
+(*     authenticated and a later message is not, ante.go keeps the fee;    *)
+(*     the statement leaves open whether the fee is then kept (and the     *)
+(*     payer's sequence consumed) or nothing is charged.                   *)
 (*  P12 genesis.  ExportGenesis followed by InitGenesis reproduces the     *)
 (*     lists, the active flag and the id counter (P2 continues to hold).   *)
 (*                                                                         *)
@@ -85,8 +92,10 @@
 (***************************************************************************)
 EXTENDS Integers, Sequences, FiniteSets
 
-CONSTANT ConfirmAfterFailedExec   \* FALSE = P9 as stated.  TRUE describes the tree as it is (finding X05-1):
-                                  \* the post handler also runs after a failed execution.
+CONSTANTS ConfirmAfterFailedExec,  \* FALSE = P9 as stated.  TRUE describes the tree as it is (finding X05-1):
+                                   \* the post handler also runs after a failed execution.
+          FeeWithoutSequence       \* FALSE = P11 as stated.  TRUE describes the tree as it is (finding X05-2): when a
+                                   \* later message is refused the fee is kept and no sequence number is consumed.
 
 VARIABLES
     conf,    \* [accts : set, names : set, ctrl : set of accounts]   (constant within a history)
@@ -264,16 +273,21 @@ TrackCalls(S, tx) == IF ~AllAuth(S, tx) THEN <<>>                               
 AnteOKAuth(S, tx) == AllAuth(S, tx) /\ TrackBad(S, tx) = {}
 BumpSeq(S, tx) == [S EXCEPT !.seq = [a \in DOMAIN @ |-> IF a \in Signers(tx) THEN @[a] + 1 ELSE @[a]]]
 Charge(S, tx) == [S EXCEPT !.fee[Payer(tx)] = @ + tx.fee]
-AfterAnteAuth(S, tx) ==
-    LET S1 == IF FeeCharged(S, tx) THEN Charge(S, tx) ELSE S
-    IN IF AnteOKAuth(S, tx) THEN BumpSeq([S1 EXCEPT !.ls = Apply(@, "track", TrackCalls(S, tx))], tx) ELSE S1
+BumpPayer(S, tx) == [S EXCEPT !.seq[Payer(tx)] = @ + 1]
+\* what the ante phase leaves behind (a set: P11 leaves one case open)
+AnteOutcomesAuth(S, tx) ==
+    IF AnteOKAuth(S, tx)
+    THEN {BumpSeq([Charge(S, tx) EXCEPT !.ls = Apply(@, "track", TrackCalls(S, tx))], tx)}
+    ELSE IF ~FeeCharged(S, tx) THEN {S}
+    ELSE IF FeeWithoutSequence THEN {Charge(S, tx)}
+    ELSE {BumpPayer(Charge(S, tx), tx), S}
 
 \* --- ante, classic flow: the accounts' own signatures decide, no authenticator is consulted
 AnteOKClassic(S, tx) == tx.stale = ""
 AfterAnteClassic(S, tx) == IF AnteOKClassic(S, tx) THEN BumpSeq(Charge(S, tx), tx) ELSE S
 
 AnteOK(S, tx) == IF UseAuth(S, tx) THEN AnteOKAuth(S, tx) ELSE AnteOKClassic(S, tx)
-AfterAnte(S, tx) == IF UseAuth(S, tx) THEN AfterAnteAuth(S, tx) ELSE AfterAnteClassic(S, tx)
+AnteOutcomes(S, tx) == IF UseAuth(S, tx) THEN AnteOutcomesAuth(S, tx) ELSE {AfterAnteClassic(S, tx)}
 AnteCalls(S, tx) == IF UseAuth(S, tx) THEN Calls("auth", AuthCalls(S, tx)) \o Calls("track", TrackCalls(S, tx)) ELSE <<>>
 
 \* --- execution on a copy X of the state; all or nothing
@@ -321,7 +335,7 @@ TxBegin(tx) ==
 TxAnte ==
     /\ fl.ph = "ante"
     /\ LET tx == fl.tx  ok == AnteOK(St, tx) IN
-        /\ Becomes(AfterAnte(St, tx))
+        /\ \E R \in AnteOutcomes(St, tx) : Becomes(R)
         /\ fl' = [fl EXCEPT !.ph = IF ok THEN "exec" ELSE "done", !.ok = ok, !.calls = AnteCalls(St, tx)]
     /\ UNCHANGED <<conf, op>>
 
@@ -368,6 +382,9 @@ NoCallsWhileInactive == (fl.ph # "idle" /\ ~fl.act0) => ~(HasCall("auth") \/ Has
 ConfirmOnlyAfterExecution == HasCall("confirm") => fl.execok
 \* P8: Track only when every message was authenticated
 TrackOnlyAfterAuth == HasCall("track") => (UseAuth(fl.S0, fl.tx) /\ AllAuth(fl.S0, fl.tx))
+\* P11: a transaction that charges a fee consumes the payer's sequence number
+ChargedFeeConsumesSequence ==
+    fl.ph = "done" => \A a \in conf.accts : fee[a] > fl.S0.fee[a] => seq[a] > fl.S0.seq[a]
 \* the code handed out fresh ids inside the transaction
 TxIdsFresh == fl.ph # "idle" => fl.fresh
 
